@@ -53,9 +53,10 @@ class Harness:
         self.timeout = int(meta.get("timeout", "600"))
         self.mem_gb = int(meta.get("mem", "16"))
         self.flags = meta.get("flags", "").replace("+", " ").split() if meta.get("flags") else []
-        self.role = meta.get("role", name)
+        self.role = meta.get("role", name).replace("+", " ")
         self.weight = int(meta.get("weight", "1"))  # rough parallel-slot cost (1 = light)
         self.cap = int(meta["cap"]) if "cap" in meta else None  # model-map capacity this harness is built with
+        self.feat = meta.get("feat")  # None = default feature set (with parking_lot model); "std" = std locks
 
 
 # property -> harness directories under incrate/ (default: the directory named like the property)
@@ -97,14 +98,20 @@ def scan_harnesses(prop):
 
 # --------------------------------------------------------------------------------------------
 # staging
-def stage(prop, tag, seed, cap=None):
-    root = os.path.join(SCRATCH_ROOT, f"{prop}-{tag}-{os.getpid()}" + (f"-cap{cap}" if cap else ""))
+def features_of(feat):
+    return "hot-reloading,utils" if feat == "std" else FEATURES
+
+
+def stage(prop, tag, seed, cap=None, feat=None):
+    root = os.path.join(SCRATCH_ROOT, f"{prop}-{tag}-{os.getpid()}" + (f"-cap{cap}" if cap else "") + (f"-{feat}" if feat else ""))
     shutil.rmtree(root, ignore_errors=True)
     os.makedirs(os.path.join(root, "verifroot", "incrate"))
     subprocess.check_call(["rsync", "-a", "--exclude", "target", "--exclude", ".git", REPO + "/", os.path.join(root, "repo") + "/"])
     for m in MODULES:
         parts = []
-        for sub in ["common"] + dirs_of(prop):
+        # the std-lock build only contains the harness directories written for it (suffix _std)
+        subs = ["common"] + [d for d in dirs_of(prop) if (d.endswith("_std")) == (feat == "std")]
+        for sub in subs:
             p = os.path.join(VERIF, "incrate", sub, m + ".rs")
             if os.path.exists(p):
                 parts.append(f"// ---- {sub}/{m}.rs\n" + open(p).read())
@@ -186,8 +193,8 @@ def kani_env():
     return e
 
 
-def build(root, log_path):
-    cmd = ["cargo", "kani", "-Z", "stubbing", "--features", FEATURES, "--target-dir", os.path.join(root, "target"), "--only-codegen"]
+def build(root, log_path, feat=None):
+    cmd = ["cargo", "kani", "-Z", "stubbing", "--features", features_of(feat), "--target-dir", os.path.join(root, "target"), "--only-codegen"]
     rc, out, dt, to = run_cmd(cmd, os.path.join(root, "repo"), 1800, env=kani_env())
     open(log_path, "w").write(out)
     return rc == 0 and not to, out, dt
@@ -243,7 +250,7 @@ def check_class(cid):
 
 
 def run_harness(root, h, logdir):
-    cmd = ["cargo", "kani", "-Z", "stubbing", "--features", FEATURES, "--target-dir", os.path.join(root, "target"),
+    cmd = ["cargo", "kani", "-Z", "stubbing", "--features", features_of(h.feat), "--target-dir", os.path.join(root, "target"),
            "--harness", h.name] + h.flags
     rc, out, dt, to = run_cmd(cmd, os.path.join(root, "repo"), h.timeout, mem_gb=h.mem_gb, env=kani_env())
     open(os.path.join(logdir, h.name + ".log"), "w").write(out)
@@ -338,7 +345,7 @@ def run_harness(root, h, logdir):
 def replay(root, h, logdir, out_dir):
     os.makedirs(out_dir, exist_ok=True)
     tdir = os.path.join(root, "target")
-    base = ["cargo", "kani", "-Z", "stubbing", "--features", FEATURES, "--target-dir", tdir, "--harness", h.name] + h.flags
+    base = ["cargo", "kani", "-Z", "stubbing", "--features", features_of(h.feat), "--target-dir", tdir, "--harness", h.name] + h.flags
     cmd = base + ["-Z", "concrete-playback", "--concrete-playback=inplace"]
     rc, out, dt, to = run_cmd(cmd, os.path.join(root, "repo"), h.timeout * 2, mem_gb=h.mem_gb, env=kani_env())
     open(os.path.join(logdir, h.name + ".playback-gen.log"), "w").write(out)
@@ -353,13 +360,13 @@ def replay(root, h, logdir, out_dir):
     shutil.copy(src, os.path.join(out_dir, h.module + ".playback.rs"))
     results = {}
     for profile in ("dev", "release"):
-        cmd = ["cargo", "kani", "playback", "-Z", "concrete-playback", "--features", FEATURES]
+        cmd = ["cargo", "kani", "playback", "-Z", "concrete-playback", "--features", features_of(h.feat)]
         if profile == "release":
             cmd += ["--release"]
         cmd += ["--", "kani_concrete_playback_" + h.name]  # prefix filter: every generated test of this harness
         e = kani_env()
         e["CARGO_TARGET_DIR"] = os.path.join(root, "target-playback")
-        rc, out, dt, to = run_cmd(cmd, os.path.join(root, "repo"), 1200, env=e)
+        rc, out, dt, to = run_cmd(cmd, os.path.join(root, "repo"), 420, env=e)
         open(os.path.join(logdir, f"{h.name}.playback-{profile}.log"), "w").write(out)
         open(os.path.join(out_dir, f"playback-{profile}.log"), "w").write(out[-20000:])
         ran = re.search(r"test result: (\w+)\. (\d+) passed; (\d+) failed", out)
@@ -414,12 +421,12 @@ def main(prop, tier, seed, extra=None):
         if miss:
             notes.append("hooks missing in working tree: " + ",".join(miss))
             raise RuntimeError("hooks missing: " + ",".join(miss))
-        caps = sorted(set(h.cap for h in harnesses), key=lambda c: (c is not None, c))
+        caps = sorted(set((h.cap, h.feat) for h in harnesses), key=lambda c: (c[0] is not None, c[0] or 0, c[1] or ""))
         roots = {}
         build_ok = True
         for c in caps:
-            roots[c] = stage(prop, tier, seed, c)
-            ok, out, bdt = build(roots[c], os.path.join(logdir, f"build{'' if c is None else '-cap%d' % c}.log"))
+            roots[c] = stage(prop, tier, seed, c[0], c[1])
+            ok, out, bdt = build(roots[c], os.path.join(logdir, f"build{'' if c[0] is None else '-cap%d' % c[0]}{'' if not c[1] else '-' + c[1]}.log"), c[1])
             if not ok:
                 build_ok = False
                 notes.append("build failed (see logs): " + "\n".join(out.splitlines()[-15:]))
@@ -432,7 +439,7 @@ def main(prop, tier, seed, extra=None):
             # heavy harnesses first
             hs = sorted(harnesses, key=lambda h: -h.timeout * h.weight)
             with cf.ThreadPoolExecutor(max_workers=workers) as ex:
-                futs = {ex.submit(run_harness, roots[h.cap], h, logdir): h for h in hs}
+                futs = {ex.submit(run_harness, roots[(h.cap, h.feat)], h, logdir): h for h in hs}
                 for f in cf.as_completed(futs):
                     h = futs[f]
                     res, out = f.result()
@@ -444,7 +451,7 @@ def main(prop, tier, seed, extra=None):
                     h = next(x for x in harnesses if x.name == res["harness"])
                     k = next((k for k in known if k.get("harness") == h.name), None)
                     rdir = os.path.join(OUT, "replay", "generated", h.name)
-                    info = replay(roots[h.cap], h, logdir, rdir)
+                    info = replay(roots[(h.cap, h.feat)], h, logdir, rdir)
                     if "native" in h.meta:
                         # harness-specific native reproducer against the real build (real threads / real crates):
                         # the violation is only reported when the real crate shows the wrong behaviour
